@@ -24,6 +24,7 @@ import (
 	"github.com/youchainhq/go-youchain/consensus/ucon"
 	"github.com/youchainhq/go-youchain/core/state"
 	"github.com/youchainhq/go-youchain/core/types"
+	"github.com/youchainhq/go-youchain/logging"
 	"github.com/youchainhq/go-youchain/params"
 	"github.com/youchainhq/go-youchain/rlp"
 	"github.com/youchainhq/go-youchain/staking"
@@ -101,6 +102,16 @@ func initEntries() {
 	addEntry("LogData", "staking", 2, staking.LogData{}, nil)
 	addEntry("SlashData", "evidence", 4, staking.SlashData{}, nil)
 	addEntry("MarkedBlockInfo", "consensus", 1, ucon.MarkedBlockInfo{}, nil)
+	addEntry("AddrVoteStatus", "consensus", 2, ucon.AddrVoteStatus{}, nil)
+	addEntry("UpgradeVote", "header", 1, types.UpgradeVote{}, nil)
+	// package you cannot be linked into the harness (its quic-go dependency panics at
+	// init under this toolchain): the wire structs of you/protocol.go are mirrored in
+	// mirror.go and compared with the source text by the translator (checkMirrors).
+	addEntry("statusData", "protocol", 2, statusData{}, nil)
+	addEntry("getBlockHeadersData", "protocol", 3, getBlockHeadersData{}, nil)
+	addEntry("NewBlockHashesData", "protocol", 2, NewBlockHashesData{}, nil)
+	addEntry("BlocksData", "protocol", 1, BlocksData{}, nil)
+	addEntry("GetNodeDataMsgData", "protocol", 2, GetNodeDataMsgData{}, nil)
 }
 
 func pickEntry(r *vf.Rng) *entry {
@@ -121,6 +132,7 @@ func pickEntry(r *vf.Rng) *entry {
 // ---- translator sub-command -----------------------------------------------------------
 
 func schemasCmd(out string) {
+	checkMirrors()
 	tr := &translator{names: map[reflect.Type]string{}}
 	var tbl []string
 	for _, e := range entries {
@@ -205,6 +217,68 @@ func projObj(p reflect.Value) (m MV, pan string) {
 		m = proj(p.Elem(), ftag{})
 	}()
 	return
+}
+
+// what p2p Msg.Decode and the database readers do: a Stream limited to the
+// input, one value decoded, the rest left unread
+func goDecodeStream(e *entry, b []byte) (o obs, unread int) {
+	o.obj = e.mk()
+	rd := bytes.NewReader(b)
+	func() {
+		defer func() {
+			if x := recover(); x != nil {
+				o.Panic = fmt.Sprint(x)
+			}
+		}()
+		err := rlp.NewStream(rd, uint64(len(b))).Decode(o.obj.Interface())
+		if err != nil {
+			o.Err = err.Error()
+		} else {
+			o.Accepted = true
+		}
+	}()
+	return o, rd.Len()
+}
+
+func (g *genState) streamCase(e *entry, b []byte, mut string) {
+	if len(b) == 0 {
+		return // NewStream(r, 0) means "no limit"
+	}
+	o, unread := goDecodeStream(e, b)
+	c := Case{Kind: "stream", Type: e.name, ty: e.id, Bytes: hex.EncodeToString(b), Mut: mut}
+	if o.Panic != "" {
+		g.hit(hit{What: "panic:decode-stream:" + e.name, Type: e.name, Bytes: c.Bytes, Note: o.Panic})
+		return
+	}
+	if !o.Accepted {
+		g.res.Count("stream_reject")
+		c.coq = fmt.Sprintf("PStream %d %s None", e.id, byteList(b))
+		g.add(c)
+		return
+	}
+	re, errs, pan := goEncode(o.obj)
+	if pan != "" || errs != "" {
+		g.hit(hit{What: "panic:reencode-accepted:" + e.name, Type: e.name, Bytes: c.Bytes, Note: pan + errs})
+		return
+	}
+	c.Acc, c.Re = true, hex.EncodeToString(re)
+	read := b[:len(b)-unread]
+	if bytes.Equal(re, read) {
+		g.res.Count("stream_accept_canonical")
+	} else {
+		cl := classify(e, read, re)
+		g.res.Count("stream_accept_noncanonical:" + cl)
+		what := "noncanonical-accept:" + cl
+		if cl == "" {
+			what = "noncanonical-accept:unclassified:" + e.name
+		}
+		g.hit(hit{What: what, Type: e.name, Bytes: hex.EncodeToString(read), Re: c.Re, Note: "stream " + mut})
+	}
+	if unread > 0 {
+		g.res.Count("stream_accept_with_unread_bytes")
+	}
+	c.coq = fmt.Sprintf("PStream %d %s (Some (%s, %d))", e.id, byteList(b), byteList(re), unread)
+	g.add(c)
 }
 
 // ---- cases -------------------------------------------------------------------------------
@@ -411,7 +485,7 @@ var curInvalid bool
 // a value is outside the round-trip domain if it holds a nil pointer that is
 // not rlp:"nil" (written as an empty value, read back as a fresh object or rejected)
 func hasNilPtr(e *entry, m MV) bool {
-	if e.name == "Transaction" || e.name == "Transactions" || e.name == "Block" || e.name == "Body" || e.name == "MarkedBlockInfo" {
+	if e.name == "Transaction" || e.name == "Transactions" || e.name == "Block" || e.name == "Body" || e.name == "MarkedBlockInfo" || e.name == "BlocksData" {
 		return false // txdata.Recipient is rlp:"nil"; other pointers there are filled non-nil except with 2% chance (flagged by curInvalid)
 	}
 	return hasNil(m)
@@ -617,7 +691,11 @@ func gen(seed uint64, n int, outDir, corpusDir string) {
 			if len(b) > 6000 {
 				continue
 			}
-			g.bytesCase(e, b, m)
+			if r.Chance(22) {
+				g.streamCase(e, b, m)
+			} else {
+				g.bytesCase(e, b, m)
+			}
 		default:
 			if r.Bool() {
 				g.itemCase(r.Bytes(r.Heavy(48)))
@@ -722,6 +800,7 @@ func main() {
 	file := flag.String("file", "", "")
 	flag.Parse()
 	params.InitNetworkId(params.NetworkIdForTestCase)
+	logging.Root().SetHandler(logging.DiscardHandler())
 	initEntries()
 	switch mode {
 	case "gen":
